@@ -31,6 +31,11 @@ pub mod c12;
 pub mod c13;
 #[cfg(feature = "c14")]
 pub mod c14;
+#[cfg(feature = "c15")]
+pub mod c15;
+#[cfg(feature = "c15")]
+#[path = "gen/c15.rs"]
+pub mod c15g;
 #[cfg(feature = "c16")]
 pub mod c16;
 
